@@ -19,8 +19,7 @@ func Verif_C08_header_faults() {
 	}
 	verifNote("one message with all 19 header bytes symbolic followed by a symbolic tail of 0..T bytes (24 quick / 64 thorough) then EOF, in each of OpenSent/OpenConfirm/Established; up to 2 short reads (every segmentation of the first two Read calls); messages longer than the tail end in EOF mid-body (silent close)")
 	state := verifChoose("state", 3)
-	cfg := symConfig()
-	verifAssume(cfg.holdSec >= 3)
+	cfg := concreteConfig()
 	hdr := verifBuf("header", 19, 19)
 	tail := verifBuf("tail", 0, T)
 	// reference fault predicates (RFC 4271 §6.1)
@@ -87,8 +86,7 @@ func Verif_C08_header_faults() {
 func Verif_C08_wellformed_prefix_processed() {
 	verifEngineOnly()
 	verifNote("Established: UPDATE (body length symbolic 0..64) followed by a header with a corrupted marker: the UPDATE is delivered, then (1,1) is sent")
-	cfg := symConfig()
-	verifAssume(cfg.holdSec >= 3)
+	cfg := concreteConfig()
 	body := verifBuf("update", 0, 64)
 	bad := verifBuf("badhdr", 19, 19)
 	k := verifInt("corrupt")
@@ -116,7 +114,7 @@ func Verif_C08_wellformed_prefix_processed() {
 // a NOTIFICATION corebgp sends reaches the wire with exactly its code, subcode and data
 func Verif_C08_notification_verbatim() {
 	verifEngineOnly()
-	cfg := symConfig()
+	cfg := concreteConfig()
 	conn := newSymConn("c", nil, 0)
 	p := mkPeer(cfg, newMonPlugin())
 	f := newFSM(p, verifDirOf(conn), conn)
